@@ -318,7 +318,7 @@ def gen_history(draw, tier="quick"):
             op["shift"] = draw(st.lists(st.floats(-0.3, 0.3), min_size=dim, max_size=dim))
             op["vals"] = draw(st.lists(st.floats(lo, hi), min_size=ncond, max_size=ncond))
         elif k == "model_inplace":
-            op["name"] = draw(st.sampled_from(["var", "len_scale"] + (["anis", "angles"] if dim > 1 else []) + (["opt", "opt"] if spec["cls"] in ("Matern", "Stable") else [])))
+            op["name"] = draw(st.sampled_from(["var", "len_scale"] + (["anis", "angles"] if dim > 1 else []) + (["opt", "opt"] if spec["cls"] in ("Matern", "Stable") else []) + ["rescale"]))
             op["factor"] = draw(st.one_of(logfloat(1.2, 2.5), logfloat(0.4, 0.85)))
         elif k == "reassign":
             op["what"] = draw(st.sampled_from(["model", "mean", "trend", "normalizer"]))
@@ -461,6 +461,10 @@ def check_history(case, rec):
                     elif nm == "len_scale":
                         m.len_scale = m.len_scale * fac
                         spec["len_scale"] = float(m.len_scale)
+                    elif nm == "rescale":
+                        # only the rescale factor changes (the correlation length is len_scale / rescale)
+                        m.rescale = float(m.rescale) * fac
+                        spec["rescale"] = float(m.rescale)
                     elif nm == "opt":
                         # only a shape parameter changes (Matern nu / Stable alpha), kept inside its bounds
                         oname = "nu" if spec["cls"] == "Matern" else "alpha"
